@@ -81,7 +81,7 @@ def jobs(tier, seed):
         vs = rt.variables_of(d)
         for op in ("eval", "fwd", "rev_all", "diff_at_early_all"):
             js.append({"mode": "order", "d": d, "op": op, "perm": list(range(len(vs)))[::-1], "pre_at": "eval" if op != "eval" else "all"})
-    js.append({"mode": "order", "d": ["Add", ["Multiply", ["var", "a"], ["Add", X, Y, Z]], ["Multiply", ["var", "b"], ["Add", Z, Y, X]]], "op": "asexp_rev", "perm": [4, 3, 2, 1, 0]})
+    js.append({"mode": "order", "d": ["Add", ["Multiply", ["var", "a"], ["Add", X, Y]], ["Multiply", ["var", "b"], ["Add", Y, X]]], "op": "asexp_rev", "perm": [3, 2, 1, 0]})
     # one-variable expressions at points that carry extra coordinates (Derivative accepts a Point too)
     for d in [["NthPower", X, 2], ["Multiply", X, ["Exponential", X]], ["Logarithm", X], ["Divide", ["Sine", X], X]]:
         for extra in (["t"], ["a", "t"], ["zz", "a"]):
